@@ -3,14 +3,15 @@
 set -e
 cd "$(dirname "$0")"
 export GOFLAGS=-mod=mod GOPROXY=off GOSUMDB=off GOTOOLCHAIN=local
+export VERIF_ROOT="$(pwd)"
 mkdir -p bin evidence replays
 go build -o bin/mcgen ./mcgen
 go build -o bin/check ./cmd/check
-go vet ./mc >/dev/null
 go test -count=1 ./mc
-# warm the cache for every harness / check package (compile only)
-for d in harness/* checks/*; do
-  [ -f "$d/spec.json" ] || continue
-  go test -c -vet=off -tags unit -o /dev/null "./$d" 2>/dev/null || true
+# compile every harness once (with its mcgen overlay) so that the first check
+# does not pay for a cold build cache
+ids=$(cat harness/*/spec.json checks/*/spec.json 2>/dev/null | grep -o '"id": *"[A-Z0-9]*"' | grep -o 'C[0-9]*' | sort -u)
+for id in $ids; do
+  bin/check "$id" --build-only || { echo "setup: building $id failed"; exit 1; }
 done
 echo setup ok
